@@ -43,7 +43,8 @@ def _items():
     I["const"] = (lambda k: [str(k)], [], lambda k: ("const", k))
     I["none"] = (lambda k: ["None"], [], lambda k: ("none",))
     I["setv"] = (lambda k: ["(setv", "x", "%d)" % k], ["s", "s"], lambda k: ("setv", k))
-    I["add"] = (lambda k: ["(+", "x", "%d)" % k], ["s", "s"], lambda k: ("add", k))
+    # x is 0 until a setv item ran, so this item also produces the falsy non-None value 0
+    I["mul"] = (lambda k: ["(*", "x", "%d)" % k], ["s", "s"], lambda k: ("mul", k))
     I["list"] = (lambda k: ["[x", "%d]" % k], ["s"], lambda k: ("list", k))
     I["str"] = (lambda k: ['"s%d' % k, 't"'], ["s"], lambda k: ("str", "s%d" % k, "t"))
     I["print"] = (lambda k: ["(print", "%d)" % k], ["s"], lambda k: ("print", k))
@@ -175,8 +176,8 @@ def eval_input(sems, env):
         elif tag == "setv":
             env["x"] = s[1]
             value = None
-        elif tag == "add":
-            value = env["x"] + s[1]
+        elif tag == "mul":
+            value = env["x"] * s[1]
         elif tag == "list":
             value = [env["x"], s[1]]
         elif tag == "strval":
